@@ -294,15 +294,26 @@ def _types(repo, col):
     R = "R-C09-types"
     fi = repo.method("Network", "_infer_synapse_type_ind")
     ex = idx.expander(repo, fi)
-    r = ex.returns[0] if ex.returns else None
+    from sa.terms import canon
+    r = ex.merged_return()
+    r = canon(r) if r is not None else None
     ok = False
+    if r is not None and r.op == "ifexp" and all(b.op == "tuple" and b.args for b in r.args[1:]):
+        # lifted form: (A, x) if c else (B, y)  ->  type index A if c else B
+        r = T("tuple", None, [T("ifexp", None, [r.args[0], r.args[1].args[0], r.args[2].args[0]])])
     if r is not None and r.op == "tuple":
         ti = r.args[0]
         # len(names) if new else names.index(name)
         # the branches must BE len(names) / names.index(name), not merely contain them (len(names) - 1 is wrong)
-        ok = ti.op == "ifexp" and ti.args[1].op == "call" and ti.args[1].name == "len" and \
-            ti.args[2].op == "mcall" and ti.args[2].name == "index" and \
-            all(T.find(b, lambda x: x.op == "attr" and x.name == "synapse_names") is not None for b in ti.args[1:])
+        if ti.op == "ifexp":
+            c_ = ti.args[0]
+            known, new_ = ti.args[1], ti.args[2]
+            if c_.op == "cmp" and c_.name == "not in":
+                known, new_ = new_, known
+            ok = c_.op == "cmp" and c_.name in ("in", "not in") and \
+                T.find(c_.args[1], lambda x: x.op == "attr" and x.name == "synapse_names") is not None and \
+                new_.op == "call" and new_.name == "len" and known.op == "mcall" and known.name == "index" and \
+                all(T.find(b, lambda x: x.op == "attr" and x.name == "synapse_names") is not None for b in (known, new_))
     col.check(ok, R, fi, "type index of a new synapse type = current number of types, else its position",
               "len(names) if new else names.index(name)", f"returns {r.short(120) if r else None}", node=fi.node)
     fu = repo.method("Network", "_update_synapse_state_names")
